@@ -17,8 +17,10 @@ import (
 	"go/parser"
 	"go/printer"
 	"go/token"
+	"os"
 	"path/filepath"
 	"sort"
+	"strconv"
 	"strings"
 )
 
@@ -59,7 +61,7 @@ func rootIdent(e ast.Expr) *ast.Ident {
 }
 
 func (g *genCtx) genFootprint(repo string) string {
-	var ranges, pvars, writes, rangesNF, critWrites []string
+	var ranges, pvars, writes, rangesNF, critWrites, regexes []string
 	for _, rel := range footprintFiles {
 		fset := token.NewFileSet()
 		f, err := parser.ParseFile(fset, filepath.Join(repo, rel), nil, 0)
@@ -88,6 +90,16 @@ func (g *genCtx) genFootprint(repo string) string {
 					if i < len(vs.Values) {
 						if cl, ok := vs.Values[i].(*ast.CompositeLit); ok && cl.Type != nil && isMapType(cl.Type) {
 							pkgMapVars[n.Name] = true
+						}
+						// regexp.MustCompile(<string literal>): the languages Model/Realtime.v implements by hand
+						if call, ok := vs.Values[i].(*ast.CallExpr); ok && len(call.Args) == 1 {
+							if sel, ok := call.Fun.(*ast.SelectorExpr); ok && sel.Sel.Name == "MustCompile" {
+								if lit, ok := call.Args[0].(*ast.BasicLit); ok && lit.Kind == token.STRING {
+									if pat, err := strconv.Unquote(lit.Value); err == nil {
+										regexes = append(regexes, fmt.Sprintf("(%s, %s)", coqStrLit(n.Name), coqStrLit(pat)))
+									}
+								}
+							}
 						}
 					}
 				}
@@ -262,7 +274,7 @@ func (g *genCtx) genFootprint(repo string) string {
 	sort.Strings(pvars)
 	sort.Strings(writes)
 	var b strings.Builder
-	b.WriteString("(* generated by harness gen from the library source: do not edit *)\nFrom Coq Require Import String List.\nImport ListNotations.\nOpen Scope string_scope.\n\n")
+	b.WriteString("(* generated by harness gen from the library source: do not edit *)\nFrom Coq Require Import String List.\nImport ListNotations.\nLocal Open Scope string_scope.\n\n")
 	emit := func(name, ty string, rows []string) {
 		fmt.Fprintf(&b, "Definition %s : list %s := [\n", name, ty)
 		for i, r := range rows {
@@ -282,5 +294,18 @@ func (g *genCtx) genFootprint(repo string) string {
 	// the robust summaries that Properties/C06.v and C18.v pin (function names left out: extracting a helper is not a change)
 	emit("range_over_map", "(string * string)", rangesNF)
 	emit("critical_writes", "(string * string)", critWrites)
+	sort.Strings(regexes)
+	emit("regex_sources", "(string * string)", regexes)
+	// the two export templates, verbatim: Model/Export.v renders exactly these
+	var tmpls []string
+	for _, name := range []string{"journal/trips.csv.tmpl", "journal/stop_times.csv.tmpl"} {
+		b, err := os.ReadFile(filepath.Join(repo, name))
+		if err != nil {
+			g.fail("footprint: %v", err)
+			continue
+		}
+		tmpls = append(tmpls, fmt.Sprintf("(%s, %s)", coqStrLit(name), coqStrLit(string(b))))
+	}
+	emit("template_sources", "(string * string)", tmpls)
 	return b.String()
 }
